@@ -48,34 +48,30 @@ pub fn slice_shape<'a, T>(v: &'a Vec<T>) -> (r: SliceShape<'a, T>)
     ensures v@.len() == 0 ==> r is Zero, v@.len() == 1 ==> (r matches SliceShape::One(x) && *x == v@[0]), v@.len() > 1 ==> (r matches SliceShape::Many(x) && *x == v@[0]),
 { unimplemented!() }
 
-// the implementations of method m of trait tr for type ty that the package being checked can see: its own, then those of the packages it imports
-pub open spec fn dep_impls(vals: Seq<GlobalTypeEnv>, tr: Seq<char>, ty: Ty, m: Seq<char>, n: int) -> Seq<Ty>
+// the implementations of method m of trait tr for type ty that the package being checked can see — its own and those of the packages it imports —
+// counted, not listed: in which order they are looked at is the code's business
+pub open spec fn own_count(genv: PackageTypeEnv, tr: Seq<char>, ty: Ty, m: Seq<char>) -> nat { if genv.cur().impl_of(tr, ty, m) is Some { 1 } else { 0 } }
+pub open spec fn dep_count(vals: Seq<GlobalTypeEnv>, tr: Seq<char>, ty: Ty, m: Seq<char>, n: int) -> nat
     decreases n,
 {
-    if n <= 0 || n > vals.len() { Seq::<Ty>::empty() }
-    else {
-        match vals[n - 1].impl_of(tr, ty, m) {
-            Some(t) => dep_impls(vals, tr, ty, m, n - 1).push(t),
-            None => dep_impls(vals, tr, ty, m, n - 1),
-        }
-    }
+    if n <= 0 || n > vals.len() { 0 } else { dep_count(vals, tr, ty, m, n - 1) + (if vals[n - 1].impl_of(tr, ty, m) is Some { 1nat } else { 0nat }) }
 }
-pub open spec fn own_impls(genv: PackageTypeEnv, tr: Seq<char>, ty: Ty, m: Seq<char>) -> Seq<Ty> {
-    match genv.cur().impl_of(tr, ty, m) { Some(t) => seq![t], None => Seq::<Ty>::empty() }
+pub open spec fn visible_count(genv: PackageTypeEnv, tr: Seq<char>, ty: Ty, m: Seq<char>) -> nat {
+    own_count(genv, tr, ty, m) + dep_count(genv.deps.vals(), tr, ty, m, genv.deps.vals().len() as int)
 }
-pub open spec fn visible_impls(genv: PackageTypeEnv, tr: Seq<char>, ty: Ty, m: Seq<char>) -> Seq<Ty> {
-    own_impls(genv, tr, ty, m) + dep_impls(genv.deps.vals(), tr, ty, m, genv.deps.vals().len() as int)
+pub open spec fn visible_impl(genv: PackageTypeEnv, tr: Seq<char>, ty: Ty, m: Seq<char>, t: Ty) -> bool {
+    genv.cur().impl_of(tr, ty, m) == Some(t) || exists|i: int| 0 <= i < genv.deps.vals().len() && (#[trigger] genv.deps.vals()[i]).impl_of(tr, ty, m) == Some(t)
 }
 // what resolving `op` of trait `trait_name` for a concrete receiver type does
 pub open spec fn overload_ok(genv: PackageTypeEnv, trait_name: TastIdent, op: TastIdent, self_ty: Ty, params: Seq<Ty>, ret: Ty,
                              d0: Seq<Option<TextRange>>, d1: Seq<Option<TextRange>>, p0: Seq<Constraint>, p1: Seq<Constraint>, changed: bool) -> bool {
-    let found = visible_impls(genv, resolved_name(genv, trait_name.0@), self_ty, op.0@);
-    if found.len() == 1 {
+    let tr = resolved_name(genv, trait_name.0@);
+    if visible_count(genv, tr, self_ty, op.0@) == 1 {
         // exactly one: the call's function type is equated with an instance of THAT implementation's type; no diagnostic
         d1 == d0 && changed && p1.len() == p0.len() + 1 && p1.subrange(0, p0.len() as int) =~= p0
         && (p1[p0.len() as int] matches Constraint::TypeEqual(l, r)
             && (l matches Ty::TFunc { params: ps, ret_ty } && ps@ == params && *ret_ty == ret)
-            && is_inst(found[0], r))
+            && exists|t: Ty| #[trigger] visible_impl(genv, tr, self_ty, op.0@, t) && is_inst(t, r))
     } else {
         // none, or several (an ambiguity is never resolved silently): an error, and nothing is equated
         d1.len() == d0.len() + 1 && p1 == p0
